@@ -20,6 +20,7 @@ Not modelled (DESIGN.md): constructors, `edit_constant` (C14).
 -/
 import ParamVerif.Dispatch.Lemmas
 import ParamVerif.Dispatch.EventLemmas
+import ParamVerif.Dispatch.QueueLemmas
 
 namespace ParamVerif.Dispatch
 
@@ -90,6 +91,35 @@ theorem update_announces_before_raising (c : Cfg) (f : Nat) (kvs : List (Nat × 
   obtain ⟨hb, _, he, hq, _⟩ := hi
   exact (queues_empty c f (.update kvs) w h hb (fun _ => hq)).2 rfl ⟨he, hq⟩
 
+/-- **C05 (announced: the applied keys are flushed even when a later key is rejected).**  `param.update`
+with no batch open is: the keys, applied with the flag set — during which nothing runs — and then,
+*whether or not a key was rejected*, the flush of what the applied keys queued.  (What an applied key
+queues: C04 `batched_assignment_queues_exactly_the_passing_watchers`; that it stays queued through the
+rejected key: `deferred_stays_deferred`; that the flush invokes every queued watcher once with its last
+event: C04 `flush_first_round`.)  An implementation that dropped the events of the applied keys on
+failure would not satisfy this. -/
+theorem failed_update_still_flushes_applied_keys (c : Cfg) (f : Nat) (kvs : List (Nat × Int)) (w : World)
+    (hb : w.batch = false) (h : (run c (f + 1) (.update kvs) w).1 ≠ .oof) :
+    let w0 : World := { w with batch := true, setMode := (kvs.map (·.1)).filter c.isEvent ++ w.setMode }
+    (run c (f + 1) (.update kvs) w).2.2 =
+      (run c f (.updateKeys kvs) w0).2.2 ++
+      (run c f .flush { (run c f (.updateKeys kvs) w0).2.1 with batch := false }).2.2 ∧
+    (run c f (.updateKeys kvs) w0).2.1.ncalls = w.ncalls ∧
+    (run c f (.updateKeys kvs) w0).1 ≠ .oof :=
+  update_is_keys_then_flush c f kvs w hb h
+
+/-- … and a key applied before the rejected one has queued its watchers by then: after the assignment of
+a valid value inside the `update`, every watcher of that parameter that passes the filter is in the queue,
+and (`deferred_stays_deferred`) stays there until the flush above -/
+theorem applied_key_queues_its_watchers (c : Cfg) (f : Nat) (w : World) (k : Nat) (v : Int)
+    (hb : w.batch = true) (hv : c.valid k v = true) (h : (run c f (.setPlain k v) w).1 ≠ .oof) :
+    (run c f (.setPlain k v) w).1 = .ok ∧
+    ∀ wt ∈ passing w k v, wt.uid ∈ (run c f (.setPlain k v) w).2.1.queued.map (·.uid) ∧
+      ({ name := k, old := getVal w k, new := v } : Ev) ∈ (run c f (.setPlain k v) w).2.1.events := by
+  rw [setPlain_in_batch_exact c f w k v hb hv h]
+  refine ⟨rfl, fun wt hwt => ⟨uid_mem_enqueue _ _ wt hwt, ?_⟩⟩
+  exact List.mem_append_right _ (List.mem_map.2 ⟨wt, hwt, rfl⟩)
+
 /-- **C05 (still deferred inside a surrounding batch).**  Inside an open batch, after any
 statement — failing ones included — the batching flag is still set, no callback has run, and
 everything that was queued is still queued (to be delivered when the surrounding batch exits). -/
@@ -157,6 +187,15 @@ example : (run c05EvCfg 60 (.stmt (.update [(0, 1), (1, 12)])) c05EvWorld).1 = .
 -- `e = True` whose watcher raises while the Event reads True
 example : (run c05EvCfg 60 (.stmt (.set 0 1)) c05EvWorld).1 = .raised .boom ∧
           (run c05EvCfg 60 (.stmt (.set 0 1)) c05EvWorld).2.1.vals = [0, 0] := by decide
+
+-- update(p1=3, p0=12) on a world where a non-queued watcher (body: nothing) watches p1: p1's watcher is called
+-- by the flush although p0 is rejected
+def c05AnnCfg : Cfg := { bounds := [(some 0, some 9), (some 0, some 9)], bodies := [[]] }
+def c05AnnWorld : World :=
+  { vals := [0, 0], batch := false, trigger := false, events := [], queued := [], regs := [mkW 7 [1] true false 0 0] }
+example : (run c05AnnCfg 60 (.update [(1, 3), (0, 12)]) c05AnnWorld).1 = .raised .value ∧
+    (callSigs (run c05AnnCfg 60 (.update [(1, 3), (0, 12)]) c05AnnWorld).2.2).map (fun s => (s.1, s.2.2)) = [(7, true)] := by
+  decide
 
 def c05Cfg : Cfg :=
   { bounds := [(some 0, some 9), (some 0, some 9)],
